@@ -689,3 +689,18 @@ PROPS["C03"]["assumptions"] += [
     "text engine: plausibility uses the lock table read immediately before the command is sent (the harness is the only actor then); for a request that waited only SUCCED/TIMEOUT and the reply's identity are judged",
     "text engine: the 3 s 'no reply' bound is a verdict only because every other goroutine of the instance is parked at that moment (VERIF_C03T_STUCK_MS)",
 ]
+
+# C10 under controlled schedules (engine B): a leader loses leadership while client requests are in flight
+PROPS["C10"]["units"] += [
+    rapid_unit("B-C10", "^TestC10_EngineB$", quick={"checks": 4800, "shards": 16, "timeout_s": 900},
+               thorough={"checks": 80000, "shards": 16, "timeout_s": 3600}),
+    plain_unit("replay-B-C10", "^TestC10_ReplayB$", replay=True, replay_match="engineB"),
+]
+PROPS["C10"]["rule"] = PROPS["C10"]["rule"] + (" Engine B (controlled schedules): a single-shard leader with 1..3 holds; threads: one client request (unlock by LockId / unlock-first / "
+    "re-entrant lock / sharing lock / lock of a free key) that is held back in front of the shard mutex ('stall' directive, 75 %), the role change itself (SLock.updateState(STATE_FOLLOWER), "
+    "what ReplicationManager.SwitchToFollower runs) and 0..2 further client requests, all parking at the shard-mutex hook points; the rapid-drawn schedule decides who continues. Oracle: once the "
+    "role change has finished the node's lock table (holders with depth, queued requests) is identical after every further segment, and no request sent afterwards is answered SUCCED. "
+    "Non-trivial (engine B): >= 2 thread switches and a holder added or removed during the concurrent phase.")
+PROPS["C10"]["assumptions"] = PROPS["C10"]["assumptions"] + [
+    "engine B for C10 uses one shard (updateState takes every shard mutex in turn and would park while holding one), no sweeps after the role change, expiries of 30 s",
+]
